@@ -40,6 +40,13 @@ pub enum Inst {
 }
 
 fn parse_list(s: &str) -> Option<Vec<Fr>> {
+    // `gen:<n>:<seed>` (hex): the n consecutive values seed+1, …, seed+n — long lists without long lines
+    if let Some(rest) = s.strip_prefix("gen:") {
+        let (n, seed) = rest.split_once(':')?;
+        let (n, seed) = (parse_usize(n)?, parse_usize(seed)? as u64);
+        return Some((1..=n as u64).map(|i| Fr::from(seed + i)).collect());
+    }
+
     if s == "-" {
         return Some(vec![]);
     }
@@ -142,6 +149,21 @@ where
                 _ => "err".into(),
             }
         }
+        // a digest of EVERY node: per level, the sum (mod p) of all subtree roots of that level — a full scan in one line, for trees
+        // too big to print (a single lost or stale node anywhere changes one of the sums)
+        ("digest", 1) => {
+            let d = t.depth();
+            let mut sums = Vec::new();
+            for l in 0..=d {
+                let mut acc = Fr::from(0u64);
+                let mut bad = false;
+                for j in 0..(1usize << l) {
+                    match t.get_subtree_root(l, j << (d - l)) { Ok(v) => acc += v, Err(_) => bad = true }
+                }
+                sums.push(if bad { "err".to_string() } else { fr_hex(&acc) });
+            }
+            show_list(&sums)
+        }
         ("obs", 1) => {
             let d = t.depth();
             let mut levels = Vec::new();
@@ -228,6 +250,38 @@ impl TreeCtx {
                     let c = PmtreeConfig::from_str(&cfg).ok()?;
                     Inst::Pm(PmTree::new(depth, Fr::from(0u64), c).ok()?, Some(cfg))
                 }
+                _ => return Some("bad-op".into()),
+            });
+            return Some("ok".into());
+        }
+        // a persistent tree at a location chosen by the caller (created, or loaded when the location holds one): lets one process
+        // write + flush + die and the next one look at what is there. `flush_every_ms` is long so that only an explicit flush persists.
+        if w[0] == "tree" && w.len() == 4 && w[1] == "at" {
+            let depth: usize = w[3].parse().ok()?;
+            self.inst = None;
+            let cfg = format!("{{\"path\": \"{}\", \"temporary\": false, \"flush_every_ms\": 3600000}}", w[2]);
+            let c = PmtreeConfig::from_str(&cfg).ok()?;
+            return Some(match PmTree::new(depth, Fr::from(0u64), c) {
+                Ok(t) => { self.inst = Some(Inst::Pm(t, Some(cfg))); "ok".into() }
+                Err(_) => "err".into(),
+            });
+        }
+        // the process dies here, without unwinding and without dropping anything (power loss / kill -9 as far as the storage is concerned)
+        if w[0] == "crash" && w.len() == 1 {
+            use std::io::Write;
+            println!("crashing");
+            let _ = std::io::stdout().flush();
+            std::process::abort();
+        }
+        // a tree whose positions all start as a caller-chosen value (the second argument of `ZerokitMerkleTree::new`), which need
+        // not be the hasher's default leaf that deletions write
+        if w[0] == "tree" && w.len() == 5 && w[1] == "newinit" {
+            let depth: usize = w[3].parse().ok()?;
+            let init = parse_fr(w[4])?;
+            self.inst = None;
+            self.inst = Some(match w[2] {
+                "full" => Inst::Full(FullMerkleTree::<PoseidonHash>::new(depth, init, Default::default()).ok()?),
+                "opt" => Inst::Opt(OptimalMerkleTree::<PoseidonHash>::new(depth, init, Default::default()).ok()?),
                 _ => return Some("bad-op".into()),
             });
             return Some("ok".into());
@@ -344,6 +398,51 @@ pub fn reopen_loop(n: usize) -> String {
     }
     let _ = std::fs::remove_dir_all(&dir);
     format!("iterations={} failures={} lost_after_reopen={} worst_ms={}", n, failures, lost, worst.as_millis())
+}
+
+/// C18 (re-creation in bounded time, no deadlock) with three parties in one process: a live tree on location P1, a second thread
+/// trying to open P1 (it waits in the retry loop while P1 is held), and meanwhile drop + re-create cycles on an UNRELATED location P2,
+/// which must not wait for anybody. Prints the slowest P2 cycle; `p2=timeout` when the cycles do not finish within 30 s.
+pub fn open_contention() -> String {
+    use std::sync::mpsc;
+    let base = std::env::temp_dir().join(format!("zkh-contention-{}", std::process::id()));
+    let _ = std::fs::remove_dir_all(&base);
+    let cfg = |name: &str| format!("{{\"path\": \"{}\", \"temporary\": false}}", base.join(name).display());
+    let open = |c: &str| PmtreeConfig::from_str(c).ok().and_then(|c| PmTree::new(4, Fr::from(0u64), c).ok());
+    let held = match open(&cfg("held")) { Some(t) => t, None => return "setup-failed".into() };
+    let c1 = cfg("held");
+    let waiter = std::thread::spawn(move || {
+        let t0 = std::time::Instant::now();
+        let r = PmtreeConfig::from_str(&c1).ok().and_then(|c| PmTree::new(4, Fr::from(0u64), c).ok());
+        (r.is_some(), t0.elapsed().as_millis())
+    });
+    std::thread::sleep(std::time::Duration::from_millis(300));
+    let c2 = cfg("other");
+    let (tx, rx) = mpsc::channel();
+    std::thread::spawn(move || {
+        let mut worst = 0u128;
+        let mut fails = 0;
+        for k in 0..10u64 {
+            let t0 = std::time::Instant::now();
+            match PmtreeConfig::from_str(&c2).ok().and_then(|c| PmTree::new(4, Fr::from(0u64), c).ok()) {
+                Some(mut t) => { let _ = t.set((k % 16) as usize, Fr::from(k + 1)); let _ = t.close_db_connection(); drop(t); }
+                None => fails += 1,
+            }
+            worst = worst.max(t0.elapsed().as_millis());
+        }
+        let _ = tx.send((worst, fails));
+    });
+    let p2 = rx.recv_timeout(std::time::Duration::from_secs(30));
+    drop(held);
+    let res = match p2 {
+        Ok((worst, fails)) => {
+            let (ok, ms) = waiter.join().unwrap_or((false, 0));
+            format!("p2_worst_ms={} p2_failures={} waiter_opened={} waiter_ms={}", worst, fails, ok, ms)
+        }
+        Err(_) => "p2=timeout (re-creating a tree on an unrelated location waited for a thread that is waiting for another location)".to_string(),
+    };
+    let _ = std::fs::remove_dir_all(&base);
+    res
 }
 
 /// diagnostic: which error makes `MerkleTree::load` fail right after the previous instance was dropped
